@@ -44,7 +44,7 @@ def rule_guard(ctx: Ctx, rule: str = "C11.guard"):
     n_put = n_ret = 0
     for p in ctx.paths(fn, inline=None, exc_edges="none"):
         evs = p.events
-        puts = [e for e in p.calls() if k.calls_method(e, "put") or (isinstance(e.term.func, ast.Attribute) and e.term.func.attr in ("append", "appendleft")
+        puts = [e for e in p.calls() if not ctx.is_new_call(e) and k.calls_method(e, "put") or (isinstance(e.term.func, ast.Attribute) and e.term.func.attr in ("append", "appendleft")
                                                                        and k.queue_attr in show(e.term.func))]
         stored = None
         for b in p.of("branch"):
@@ -163,7 +163,13 @@ def rule_who(ctx: Ctx):
         if s is None:
             continue
         for p in ctx.paths(s, inline=None, exc_edges="none"):
-            calls = [show(e.term.func) for e in p.calls()]
+            calls = [show(e.term.func) for e in p.calls() if not show(e.term.func).startswith(("logger.", "logging.", "log.", "_logger.", "LOGGER."))]
+            if ctx.is_new(s):
+                # an override introduced later on an engine that had none: it may only delegate (an engine that cannot drain
+                # synchronously must not start anything on its own here)
+                ok = calls == ["super().start"]
+                rep.check(ok, "C11.who", s.loc(), f"{eng.name}.start() (a later override) only delegates to the base start", s.key, "; ".join(calls))
+                continue
             ok = len(calls) >= 2 and calls[0].endswith(".start") and "super" in calls[0] and calls[1] == "self.activate_initial_state"
             rep.check(ok, "C11.who", s.loc(), f"{eng.name}.start(): base start (enqueue), then immediate activation", s.key, "; ".join(calls))
 
